@@ -130,8 +130,7 @@ def run_impl_many(histories, scripted=True, keep_internal=False, procs=None):
         return pool.map(_worker, [(h, scripted, keep_internal) for h in histories], chunksize=max(1, len(histories) // (procs * 4)))
 
 
-def run_model_many(ctx, histories):
-    """One Lean process for all histories (each preceded by a reset)."""
+def _run_model_chunk(ctx, histories):
     lines = []
     for h in histories:
         lines.append(dumps({"cmd": "reset"}))
@@ -151,6 +150,28 @@ def run_model_many(ctx, histories):
                 hs.append({"model_error": s})
         outs.append(hs)
     return outs
+
+
+def run_model_many(ctx, histories, max_procs=8):
+    """All histories through the Lean model (each preceded by a reset); large inputs are split over several
+    driver processes (the driver is single-threaded)."""
+    total = sum(len(h) + 1 for h in histories)
+    nproc = max(1, min(max_procs, total // 4000, len(histories)))
+    if nproc == 1:
+        return _run_model_chunk(ctx, histories)
+    chunks = [[] for _ in range(nproc)]
+    loads = [0] * nproc
+    order = sorted(range(len(histories)), key=lambda k: -len(histories[k]))
+    where = {}
+    for k in order:
+        c = loads.index(min(loads))
+        where[k] = (c, len(chunks[c]))
+        chunks[c].append(histories[k])
+        loads[c] += len(histories[k]) + 1
+    import concurrent.futures
+    with concurrent.futures.ThreadPoolExecutor(nproc) as ex:
+        res = list(ex.map(lambda ch: _run_model_chunk(ctx, ch), chunks))
+    return [res[where[k][0]][where[k][1]] for k in range(len(histories))]
 
 
 def first_divergence(h, impl, model, obs=obs_out):
